@@ -167,4 +167,34 @@ def _mrs_to_links(
                 start = id_to_nid[src.id]
                 links.append(
                     dmrs.Link(start, end, dmrs.BARE_EQ_ROLE, dmrs.EQ_POST))
+    # a predication that is neither a representative nor tied by /EQ
+    # links to the first representative of its scope would lose its
+    # label: give it a MOD/EQ link as well
+    eq: Dict[int, List[int]] = {}
+    for link in links:
+        if link.post == dmrs.EQ_POST:
+            eq.setdefault(link.start, []).append(link.end)
+            eq.setdefault(link.end, []).append(link.start)
+    for label, members in m.scopes()[1].items():
+        if len(members) < 2 or not reps.get(label):
+            continue
+        end = id_to_nid[reps[label][0].id]
+        seen = _eq_component(end, eq)
+        for ep in members:
+            start = id_to_nid[ep.id]
+            if start not in seen:
+                links.append(
+                    dmrs.Link(start, end, dmrs.BARE_EQ_ROLE, dmrs.EQ_POST))
+                seen.extend(_eq_component(start, eq))
     return links
+
+
+def _eq_component(nid: int, eq: Dict[int, List[int]]) -> List[int]:
+    seen = [nid]
+    agenda = [nid]
+    while agenda:
+        for other in eq.get(agenda.pop(), []):
+            if other not in seen:
+                seen.append(other)
+                agenda.append(other)
+    return seen
